@@ -11,8 +11,8 @@ VERIF = os.path.dirname(os.path.dirname(os.path.abspath(__file__)))
 CHECKS = {
     "C01": ("property-based testing (Hypothesis), oracle = independent reference HMM (exhaustive walk enumeration "
             "cross-checked with an own Viterbi)",
-            "Generated maps (<=12 nodes), traces (<=12 points) and emitting-only first-order configurations of all three "
-            "matcher families are matched on the in-memory map (and on SQLite for integer labels); matched prefix length, "
+            "Generated maps (<=12 nodes, incl. linked parallel edges), traces (<=12 points) and emitting-only first-order "
+            "configurations of the three modelled matcher families are matched on the in-memory map (and on SQLite for integer labels); matched prefix length, "
             "best probability and admissibility/optimality of the returned walk are compared with an exhaustive enumeration "
             "of all admissible walks under an independently written model. Exploration.",
             "trusted: hmmref.py (two evaluators cross-checked on every small case); decisions within 1e-9 of a cut-off are "
@@ -20,8 +20,9 @@ CHECKS = {
             "DESIGN.md §2 C01"),
     "C15": ("property-based testing (Hypothesis), differential oracle (lat/lon vs locally projected planar case)",
             "Street-scale planar cases (edges >= 10 m, noise >= 5 m) are matched as they are and placed at a generated origin "
-            "(|lat| <= 60) on a lat/lon map with the same parameters in metres: same index, probability within 1e-2 relative + "
-            "1e-3 absolute (measured use of the tolerance is reported). Exploration.",
+            "(|lat| <= 60, any longitude incl. maps straddling the antimeridian) on a lat/lon map with the same parameters in metres: "
+            "same index, probability within 1e-2 relative + 1e-3 absolute + the propagated 0.1 m along-edge position noise for the "
+            "distance family (measured use of the tolerance is reported). Exploration.",
             "trusted: local equirectangular placement (geomsph.local_to_latlon); cases adjacent to a discontinuity of the model "
             "in the relative position (edge-end rule of node mode, going-back decision) are skipped and counted",
             "DESIGN.md §2 C15"),
@@ -37,7 +38,7 @@ CHECKS = {
             "DESIGN.md §2 C19"),
     "C17": ("[thorough: + atheris coverage-guided bridge] property-based testing (Hypothesis), oracle = totality predicate + metamorphic pairs-vs-triples relation",
             "Generated maps incl. duplicate locations / zero-length edges, traces exactly on nodes and roads, repeats, "
-            "outliers, extreme noise values, both metrics: match() must return a (list, int) pair without raising and the "
+            "outliers, extreme noise values, both metrics, both backends, four matcher families: match() must return a (list, int) pair without raising and the "
             "(lat, lon, time) form of the trace must give the identical canonical result. Exploration.",
             "trusted: the generators only build finite maps whose neighbour labels are nodes (dangling labels are outside "
             "the API's notion of a map)",
@@ -52,7 +53,9 @@ CHECKS = {
     "C03": ("[thorough: + atheris coverage-guided bridge] property-based testing (Hypothesis), oracle = validity predicate over (states, index, best path, lattice) + "
             "independent start-candidate scan",
             "Alignment of the best path with the observations, the state list (unique on/off), the truthfulness of the returned "
-            "index against the lattice, and 'empty iff no admissible start' against an independent full scan. Exploration.",
+            "index against the lattice, and 'empty iff no admissible start' against an independent full scan; after single calls, "
+            "after a different (decoy) trace was matched first on the same matcher, and after every call of generated "
+            "extend / widen / rematch histories; four matcher families (incl. Newson-Krumm). Exploration.",
             "trusted: hmmref.py start scan; trailing non-emitting run after an early stop accepted (documented); F1 excluded from "
             "the empty-iff clause only",
             "DESIGN.md §2 C03"),
@@ -64,8 +67,8 @@ CHECKS = {
             "DESIGN.md §2 C04"),
     "C05": ("property-based testing (Hypothesis), oracle = replay under the reference model + spherical reference for lat/lon",
             "Reported and true distances against max_dist / max_dist_init, reported and model normalised probability against "
-            "min_prob_norm, matched positions against exact nearest points (planar) / the spherical nearest point (lat/lon). "
-            "Exploration.",
+            "min_prob_norm, matched positions against exact nearest points (planar) / the spherical nearest point (lat/lon); also "
+            "when the matcher object was used for another trace before. Exploration.",
             "trusted: hmmref.py, geom2d.py, geomsph.py; lat/lon cut-off comparisons use the package's own distance",
             "DESIGN.md §2 C05"),
     "C06": ("property-based testing (Hypothesis), differential oracle (non_emitting_states off vs on)",
@@ -105,7 +108,7 @@ CHECKS = {
             "(exact rational in the plane, unit-vector spherical for lat/lon)",
             "Generated contents on both backends, three coordinate magnitudes (unit, projected metres ~5e6, degrees) and queries "
             "drawn relative to the content (node at r-eps along an axis, node exactly at r, long edge through the disc, near an "
-            "edge, random), with max_elmt: returned set, distances, projections, relative positions, order and truncation are "
+            "edge, random, unbounded radius, content across the antimeridian), with max_elmt: returned set, distances, projections, relative positions, order and truncation are "
             "compared with a full scan. Exploration.",
             "trusted: geom2d.py / geomsph.py; stated don't-care bands around the radius; open finding F1 recognised by signature only",
             "DESIGN.md §2 C11"),
@@ -140,7 +143,7 @@ CHECKS = {
             "0.25 m + 1e-6 L (projections), stated in evidence",
             "DESIGN.md §2 C14"),
     "C20": ("property-based testing (Hypothesis) + atheris bridge, oracle = validity predicate over the output",
-            "Generated traces (1-6 points, repeated points, exact-multiple spacings, both metrics) are interpolated and the "
+            "Generated traces (1-6 points, repeated points, exact-multiple spacings, both metrics, street scale and long-haul legs up to 13 000 km) are interpolated and the "
             "output is checked structurally: originals kept in order, inserted points on the straight / great-circle "
             "connection and monotone along it, no gap above the spacing. Exploration.",
             "trusted: geom2d.py / geomsph.py; tolerance 1e-9 relative (planar), 1e-4 m + 1e-7 L (lat/lon)",
